@@ -80,6 +80,10 @@ def run(c):
                     ks = sorted(k for k in ks if 0 <= k < n)
                 for k in ks:
                     plans.append((wl, iters, e, 'partial', k, refs, final))
+                # the write fails (disk full) after 0 / half / all but one of its bytes; the process goes on and is killed when the next
+                # iteration has been computed (or ends normally after the last one)
+                for k in sorted({0, n // 2, max(n - 1, 0)}):
+                    plans.append((wl, iters, e, 'fail', k, refs, final))
     if c.tier == 'thorough':
         _strace_crosscheck(c, app, so, info)
     c.extra['workloads'] = info
@@ -94,12 +98,25 @@ def run(c):
             env['VF_CP_KILL_BEFORE'] = str(e['n'])
         elif phase == 'after':
             env['VF_CP_KILL_AFTER'] = str(e['n'])
-        else:
+        elif phase == 'partial':
             env['VF_CP_PARTIAL'] = '%d:%d' % (e['n'], k)
+        else:
+            env['VF_CP_FAIL'] = '%d:%d' % (e['n'], k)
+            env['VF_CP_KILL_AT_MARK'] = str(e['iteration'] + 1)
+            env['VF_CP_LOG'] = os.path.join(d, 'fail.log')
         f = os.path.join(ck, 'chk.txt')
         rc, out, err = _sh([app, wl, f, '-', str(iters)], env=env)
         res = dict(workload=wl, event=e['n'], event_name=e['name'], iteration=e['iteration'], phase=phase, prefix=k, rc=rc)
-        if rc != -9:
+        if phase == 'fail':
+            log = _read(os.path.join(d, 'fail.log')) or b''
+            res['write_failures_injected'] = log.count(b'FAILED')
+            # after the last iteration there is no further callback: the process ends normally
+            expected_rc = -9 if e['iteration'] < iters else 0
+            if rc != expected_rc or res['write_failures_injected'] == 0:
+                res['status'] = 'not-killed'
+                shutil.rmtree(d, ignore_errors=True)
+                return res
+        elif rc != -9:
             res['status'] = 'not-killed'
             shutil.rmtree(d, ignore_errors=True)
             return res
@@ -114,6 +131,19 @@ def run(c):
         res['status'] = 'ok' if ok else 'bad-file'
         if not ok:
             res['matches_any_reference'] = any(content == refs[x] for x in refs if refs[x] is not None) if content is not None else False
+        # second job, killed before its first write to the file (after whatever it does on start-up): the file is still that checkpoint
+        if ok and i % 2 == 0:
+            envk = dict(os.environ, LD_PRELOAD=so, VF_CP_DIR=ck + '/', VF_CP_KILL_FIRST_WRITE='1')
+            rck, outk, errk = _sh([app, wl, f, '-', str(iters)], env=envk)
+            if rck == -9:
+                res['second_job_killed_before_its_first_write'] = True
+                c2 = _read(f)
+                if c2 != content:
+                    res['status'] = 'bad-file-after-second-kill'
+                    res['file_after_second_kill'] = 'absent' if c2 is None else ('%d bytes' % len(c2))
+                    res['matches_any_reference'] = any(c2 == refs[x] for x in refs if refs[x] is not None) if c2 is not None else False
+            elif rck != 0:
+                res['status'] = 'second-job-failed'
         # restart without faults: must reach the reference final checkpoint
         env2 = dict(os.environ)
         rc2, out2, err2 = _sh([app, wl, f, ref, str(iters)], env=env2)
@@ -134,6 +164,14 @@ def run(c):
         c.count('kill_points_executed')
         c.count('kills_%s' % r['phase'])
         c.sigs.add(hash((r['workload'], r['event'], r['phase'], r['prefix'])) & 0xffffffffffffffff)
+        if r.get('second_job_killed_before_its_first_write'):
+            c.count('second_jobs_killed_before_their_first_write')
+        if r['phase'] == 'fail':
+            c.count('write_failures_injected', r.get('write_failures_injected', 0))
+        if r['status'] == 'bad-file-after-second-kill':
+            c.add_violation('file-changed-by-a-resumed-job-killed-before-its-first-write:' + key_tail, dict(program='c18_app', variant=r['workload'], build='plain1', case=None, detail=r))
+        if r['status'] == 'second-job-failed':
+            c.add_violation('resumed-job-failed:' + key_tail, dict(program='c18_app', variant=r['workload'], build='plain1', case=None, detail=r))
         if r['status'] == 'bad-file':
             c.add_violation('file-not-a-complete-checkpoint-after-kill:' + key_tail, dict(program='c18_app', variant=r['workload'], build='plain1', case=None, detail=r))
         if r['restart'] != 'ok':
@@ -145,6 +183,8 @@ def run(c):
     c.extra['kill_plans'] = len(plans)
     c.require('kill_points_executed', 20)
     c.require('kills_partial', 5)
+    c.require('kills_fail', 5)
+    c.require('second_jobs_killed_before_their_first_write', 5)
 
 
 def _strace_crosscheck(c, app, so, info):
